@@ -139,10 +139,39 @@ def strip_n(ident: str) -> str:
     return ident.rsplit("#", 1)[0]
 
 
+def engine_selftest() -> dict:
+    """CPython cross-check of the engine (tools/engine_selftest.py): run once per version of the engine sources (the result is
+    cached under /verif/.selftest/<sha>.json, recomputed whenever pyvc/*.py or the corpus change)."""
+    import subprocess
+
+    h = hashlib.sha1()
+    files = sorted([os.path.join(VERIF, "pyvc", f) for f in os.listdir(os.path.join(VERIF, "pyvc")) if f.endswith(".py")]
+                   + [os.path.join(VERIF, "tools", "selftest_cases.py"), os.path.join(VERIF, "tools", "engine_selftest.py")])
+    for f in files:
+        with open(f, "rb") as fh:
+            h.update(fh.read())
+    d = os.path.join(VERIF, ".selftest")
+    os.makedirs(d, exist_ok=True)
+    path = os.path.join(d, h.hexdigest()[:16] + ".json")
+    if os.path.exists(path):
+        return load_json(path, {})
+    p = subprocess.run([sys.executable, os.path.join(VERIF, "tools", "engine_selftest.py")], cwd=VERIF, capture_output=True, text=True, timeout=1800,
+                       env={**os.environ, "PYTHONHASHSEED": "0"})
+    lines = [json.loads(ln) for ln in p.stdout.splitlines() if ln.startswith("{")]
+    summary = next((ln for ln in reversed(lines) if ln.get("selftest")), {"selftest": "engine-vs-cpython", "failed": True, "error": (p.stderr or p.stdout)[-500:]})
+    summary["disagreements"] = [ln for ln in lines if ln.get("function") and (ln.get("engine_vs_cpython") not in ("proved", "unsupported") or ln.get("perturbed_contract", "refuted") != "refuted")]
+    tmp = path + f".{os.getpid()}.tmp"
+    with open(tmp, "w") as fh:
+        json.dump(summary, fh)
+    os.replace(tmp, path)
+    return summary
+
+
 def run_property(prop: str, tier: str, seed: int, update_baseline: bool = False) -> int:
     t0 = time.time()
     os.environ.setdefault("PYTHONHASHSEED", "0")
     os.environ["VERIF_TIER"] = tier
+    selftest = engine_selftest()
     P, R = load_all()
     keys = list(R.groups.get(prop, []))
     for k, c in R.contracts.items():
@@ -370,6 +399,8 @@ def run_property(prop: str, tier: str, seed: int, update_baseline: bool = False)
             print("  (found by the bounded driver; no obligation could be generated for: " + "; ".join(u.split(':')[1] if ':' in u else u for u in undecided)[:300] + ")")
             exit_code = 1
             violations.append({"id": "bounded-search", "function": "", "status": "bounded-search", "detail": "", "kind": "bounded"})
+    if selftest.get("failed"):
+        errors.append("engine self-test (CPython cross-check) failed: " + json.dumps(selftest.get("disagreements") or selftest.get("error"))[:600])
     if errors:
         for e in errors:
             print("CHECKER-ERROR:", e, file=sys.stderr)
@@ -409,6 +440,7 @@ def run_property(prop: str, tier: str, seed: int, update_baseline: bool = False)
             "by_backend": by_backend,
             "solver_time_s": round(solver_time, 2),
             "lemmas": lemmas,
+            "engine_selftest_vs_cpython": {k: selftest.get(k) for k in ("functions", "agree_and_nonvacuous", "unsupported", "failed")},
             "known_findings_matched": [k["finding"]["id"] for k in known_hit],
             "stub_conformance_samples": conformance,
             "bounded_standins": bounded,
